@@ -466,3 +466,88 @@ def rule_k5(ctx) -> None:
         ctx.instance("C12-K5", "__run_pipeline receives %s" % why, rb.loc(c), ok=ok)
         if not ok:
             ctx.finding("C12-K5", "Balancer.__rebalance_batch:pipeline-input", rb.loc(c), "the pipeline computes the cached entry from %s: the entry then depends on something the cache key does not cover, and a later hit returns a result that a fresh run would not produce" % why)
+    rule_k6(ctx)
+
+
+def rule_k6(ctx) -> None:
+    """Caching is transparent also when the cache cannot be written (directory removed, disk full): the rows a batch
+    computed are returned all the same.  In __rebalance_batch the write sits inside the handler that also guards the
+    pipeline, so the name that is returned has to be bound to the pipeline's rows *before* write_cache is called."""
+    ctx.rule("C12-K6", "the rows to return are bound before the cache entry is written (a failed write cannot lose them)", 1)
+    prog = ctx.prog
+    rb = prog.func("synrbl.balancing.Balancer.__rebalance_batch")
+    cfg = CFG(rb.node)
+    writes = [c for c in calls(rb) if isinstance(c.func, ast.Attribute) and c.func.attr == "write_cache"]
+    runs = [c for c in calls(rb) if (ctx.res.resolve_callee(c, rb) or ("", ""))[1].endswith("Balancer.__run_pipeline")]
+    ctx.require(writes and runs, "__rebalance_batch no longer runs the pipeline and writes the cache")
+    rets = [r for r in own_nodes(rb.node) if isinstance(r, ast.Return) and r.value is not None]
+    rnames = set()
+    for r in rets:
+        v = r.value.elts[0] if isinstance(r.value, ast.Tuple) and r.value.elts else r.value
+        if isinstance(v, ast.Name):
+            rnames.add(v.id)
+    ctx.require(rnames, "__rebalance_batch does not return a local")
+    # names that carry the pipeline's rows (through copies)
+    carriers = set()
+    for c in runs:
+        par = getattr(c, "_parent", None)
+        if isinstance(par, ast.Assign):
+            carriers |= {t.id for t in par.targets if isinstance(t, ast.Name)}
+    for w in writes:
+        own_try = False
+        cur, prev = getattr(w, "_parent", None), w
+        while cur is not None and cur is not rb.node:
+            if isinstance(cur, ast.Try) and any(any(y is w for y in ast.walk(b)) for b in cur.body) and not any(any(y is c for y in ast.walk(b)) for b in cur.body for c in runs):
+                own_try = True  # a handler of its own, not shared with the pipeline call
+            cur = getattr(cur, "_parent", None)
+        wn = cfg.node_of(w)
+        bound_before = False
+        for nm in rnames:
+            for st_, v, i in assignments_to(rb, nm):
+                src_ok = (isinstance(v, ast.Call) and v in runs) or (isinstance(v, ast.Name) and v.id in carriers) or (i is not None)
+                if isinstance(v, ast.Call) and v in runs or (isinstance(v, ast.Name) and v.id in carriers):
+                    an = cfg.node_of(st_)
+                    if an is not None and wn is not None and cfg.dominates(an, wn):
+                        bound_before = True
+        ok = own_try or bound_before
+        ctx.instance("C12-K6", "write_cache: returned rows bound before the write: %s, write in a handler of its own: %s" % (bound_before, own_try), rb.loc(w), ok=ok)
+        if not ok:
+            ctx.finding("C12-K6", "Balancer.__rebalance_batch:write-before-result", rb.loc(w), "the cache entry is written before the name that __rebalance_batch returns (%s) is bound to the pipeline's rows: when the write fails the shared handler leaves that name empty and the batch's rows are dropped, although the same run without a cache returns them" % sorted(rnames))
+    rule_k7(ctx)
+
+
+def rule_k7(ctx) -> None:
+    """Two different payloads must not share a key.  sha256 over `json.dumps(payload, sort_keys=True)` is injective on
+    what the Balancer hashes (lists keep their order, only dict keys are sorted).  A payload that is first rewritten by
+    some function - sorted, turned into sets, stringified - may collapse payloads that differ (the same rows in another
+    order), so the serialiser has to be applied to the parameter itself."""
+    ctx.rule("C12-K7", "the cache key hashes a serialisation of the payload itself, not of a rewritten copy", 1)
+    prog = ctx.prog
+    cm = next((c for q, c in prog.classes.items() if q.endswith(".CacheManager")), None)
+    ctx.require(cm is not None, "CacheManager vanished")
+    f = prog.lookup_method(cm, "get_hash_key")
+    ctx.require(f is not None and len(f.params) >= 2, "CacheManager.get_hash_key vanished")
+    data_p = f.params[1]
+    dumps = [(c, c.args[0] if c.args else None) for c in calls(f) if unparse(c.func).split(".")[-1] in ("dumps",)]
+    # a helper that is nothing but the serialiser: `def _encode(obj): return json.dumps(obj, sort_keys=True)`
+    for c in calls(f):
+        tgt = ctx.res.resolve_callee(c, f)
+        g = prog.functions.get(tgt[1]) if tgt and tgt[0] == "func" else None
+        if g is None or not c.args:
+            continue
+        rets = [r for r in own_nodes(g.node) if isinstance(r, ast.Return) and r.value is not None]
+        if len(rets) == 1 and isinstance(rets[0].value, ast.Call) and unparse(rets[0].value.func).split(".")[-1] == "dumps" and rets[0].value.args and isinstance(rets[0].value.args[0], ast.Name) and rets[0].value.args[0].id in g.params:
+            dumps.append((c, c.args[g.params.index(rets[0].value.args[0].id)] if g.params.index(rets[0].value.args[0].id) < len(c.args) else None))
+    ctx.require(dumps, "get_hash_key no longer serialises its argument with json.dumps / pickle.dumps")
+    for c, arg in dumps:
+        for _ in range(3):
+            if isinstance(arg, ast.Name) and arg.id != data_p:
+                d_ = assignments_to(f, arg.id)
+                if len(d_) == 1 and d_[0][2] is None:
+                    arg = d_[0][1]
+                    continue
+            break
+        ok = isinstance(arg, ast.Name) and arg.id == data_p
+        ctx.instance("C12-K7", "get_hash_key serialises %s" % (unparse(arg)[:50] if arg is not None else None), f.loc(c), ok=ok)
+        if not ok:
+            ctx.finding("C12-K7", "CacheManager.get_hash_key:payload-rewritten", f.loc(c), "the key is computed from %s instead of the payload itself: a rewrite that sorts or collapses parts of the payload gives one key to batches that differ (the same rows in another order), and the later run is served the earlier run's rows" % (unparse(arg)[:50] if arg is not None else "nothing"))
